@@ -15,25 +15,30 @@ vars == <<cell>>
 \* ---------------------------------------------------------------- input kinds
 \* name |-> [isT (tensor), isA (ndarray), dt, const, hasGraph, hasGrad, isView, ro, nd]
 Kinds == [
-  pyfloat   |-> [isT |-> FALSE, isA |-> FALSE, dt |-> "f8",  const |-> FALSE, graph |-> FALSE, grad |-> FALSE, view |-> FALSE, nd |-> 0],
-  pyint     |-> [isT |-> FALSE, isA |-> FALSE, dt |-> "i8",  const |-> FALSE, graph |-> FALSE, grad |-> FALSE, view |-> FALSE, nd |-> 0],
-  listf     |-> [isT |-> FALSE, isA |-> FALSE, dt |-> "f8",  const |-> FALSE, graph |-> FALSE, grad |-> FALSE, view |-> FALSE, nd |-> 1],
-  listi     |-> [isT |-> FALSE, isA |-> FALSE, dt |-> "i8",  const |-> FALSE, graph |-> FALSE, grad |-> FALSE, view |-> FALSE, nd |-> 1],
-  arrf8     |-> [isT |-> FALSE, isA |-> TRUE,  dt |-> "f8",  const |-> FALSE, graph |-> FALSE, grad |-> FALSE, view |-> FALSE, nd |-> 1],
-  arrf4     |-> [isT |-> FALSE, isA |-> TRUE,  dt |-> "f4",  const |-> FALSE, graph |-> FALSE, grad |-> FALSE, view |-> FALSE, nd |-> 1],
-  arrview   |-> [isT |-> FALSE, isA |-> TRUE,  dt |-> "f8",  const |-> FALSE, graph |-> FALSE, grad |-> FALSE, view |-> TRUE,  nd |-> 1],
-  arrT      |-> [isT |-> FALSE, isA |-> TRUE,  dt |-> "f8",  const |-> FALSE, graph |-> FALSE, grad |-> FALSE, view |-> TRUE,  nd |-> 2],
-  arrF      |-> [isT |-> FALSE, isA |-> TRUE,  dt |-> "f8",  const |-> FALSE, graph |-> FALSE, grad |-> FALSE, view |-> FALSE, nd |-> 2],
-  arri8     |-> [isT |-> FALSE, isA |-> TRUE,  dt |-> "i8",  const |-> FALSE, graph |-> FALSE, grad |-> FALSE, view |-> FALSE, nd |-> 1],
-  arrc16    |-> [isT |-> FALSE, isA |-> TRUE,  dt |-> "c16", const |-> FALSE, graph |-> FALSE, grad |-> FALSE, view |-> FALSE, nd |-> 1],
-  tleaf     |-> [isT |-> TRUE,  isA |-> FALSE, dt |-> "f8",  const |-> FALSE, graph |-> FALSE, grad |-> FALSE, view |-> FALSE, nd |-> 1],
-  tconst    |-> [isT |-> TRUE,  isA |-> FALSE, dt |-> "f8",  const |-> TRUE,  graph |-> FALSE, grad |-> FALSE, view |-> FALSE, nd |-> 1],
-  tint      |-> [isT |-> TRUE,  isA |-> FALSE, dt |-> "i8",  const |-> TRUE,  graph |-> FALSE, grad |-> FALSE, view |-> FALSE, nd |-> 1],
-  tgraph    |-> [isT |-> TRUE,  isA |-> FALSE, dt |-> "f8",  const |-> FALSE, graph |-> TRUE,  grad |-> FALSE, view |-> FALSE, nd |-> 1],
-  tgrad     |-> [isT |-> TRUE,  isA |-> FALSE, dt |-> "f8",  const |-> FALSE, graph |-> FALSE, grad |-> TRUE,  view |-> FALSE, nd |-> 1],
-  tview     |-> [isT |-> TRUE,  isA |-> FALSE, dt |-> "f8",  const |-> FALSE, graph |-> TRUE,  grad |-> FALSE, view |-> TRUE,  nd |-> 1],
-  tT        |-> [isT |-> TRUE,  isA |-> FALSE, dt |-> "f8",  const |-> FALSE, graph |-> TRUE,  grad |-> FALSE, view |-> TRUE,  nd |-> 2],
-  tf4       |-> [isT |-> TRUE,  isA |-> FALSE, dt |-> "f4",  const |-> FALSE, graph |-> FALSE, grad |-> FALSE, view |-> FALSE, nd |-> 1]
+  pyfloat   |-> [isT |-> FALSE, isA |-> FALSE, dt |-> "f8",  const |-> FALSE, graph |-> FALSE, grad |-> FALSE, view |-> FALSE, buf |-> FALSE, nd |-> 0],
+  pyint     |-> [isT |-> FALSE, isA |-> FALSE, dt |-> "i8",  const |-> FALSE, graph |-> FALSE, grad |-> FALSE, view |-> FALSE, buf |-> FALSE, nd |-> 0],
+  listf     |-> [isT |-> FALSE, isA |-> FALSE, dt |-> "f8",  const |-> FALSE, graph |-> FALSE, grad |-> FALSE, view |-> FALSE, buf |-> FALSE, nd |-> 1],
+  listi     |-> [isT |-> FALSE, isA |-> FALSE, dt |-> "i8",  const |-> FALSE, graph |-> FALSE, grad |-> FALSE, view |-> FALSE, buf |-> FALSE, nd |-> 1],
+  arrf8     |-> [isT |-> FALSE, isA |-> TRUE,  dt |-> "f8",  const |-> FALSE, graph |-> FALSE, grad |-> FALSE, view |-> FALSE, buf |-> FALSE, nd |-> 1],
+  arrf4     |-> [isT |-> FALSE, isA |-> TRUE,  dt |-> "f4",  const |-> FALSE, graph |-> FALSE, grad |-> FALSE, view |-> FALSE, buf |-> FALSE, nd |-> 1],
+  arrview   |-> [isT |-> FALSE, isA |-> TRUE,  dt |-> "f8",  const |-> FALSE, graph |-> FALSE, grad |-> FALSE, view |-> TRUE,  buf |-> FALSE, nd |-> 1],
+  arrT      |-> [isT |-> FALSE, isA |-> TRUE,  dt |-> "f8",  const |-> FALSE, graph |-> FALSE, grad |-> FALSE, view |-> TRUE,  buf |-> FALSE, nd |-> 2],
+  arrF      |-> [isT |-> FALSE, isA |-> TRUE,  dt |-> "f8",  const |-> FALSE, graph |-> FALSE, grad |-> FALSE, view |-> FALSE, buf |-> FALSE, nd |-> 2],
+  arri8     |-> [isT |-> FALSE, isA |-> TRUE,  dt |-> "i8",  const |-> FALSE, graph |-> FALSE, grad |-> FALSE, view |-> FALSE, buf |-> FALSE, nd |-> 1],
+  arrc16    |-> [isT |-> FALSE, isA |-> TRUE,  dt |-> "c16", const |-> FALSE, graph |-> FALSE, grad |-> FALSE, view |-> FALSE, buf |-> FALSE, nd |-> 1],
+  tleaf     |-> [isT |-> TRUE,  isA |-> FALSE, dt |-> "f8",  const |-> FALSE, graph |-> FALSE, grad |-> FALSE, view |-> FALSE, buf |-> FALSE, nd |-> 1],
+  tconst    |-> [isT |-> TRUE,  isA |-> FALSE, dt |-> "f8",  const |-> TRUE,  graph |-> FALSE, grad |-> FALSE, view |-> FALSE, buf |-> FALSE, nd |-> 1],
+  tint      |-> [isT |-> TRUE,  isA |-> FALSE, dt |-> "i8",  const |-> TRUE,  graph |-> FALSE, grad |-> FALSE, view |-> FALSE, buf |-> FALSE, nd |-> 1],
+  tgraph    |-> [isT |-> TRUE,  isA |-> FALSE, dt |-> "f8",  const |-> FALSE, graph |-> TRUE,  grad |-> FALSE, view |-> FALSE, buf |-> FALSE, nd |-> 1],
+  tgrad     |-> [isT |-> TRUE,  isA |-> FALSE, dt |-> "f8",  const |-> FALSE, graph |-> FALSE, grad |-> TRUE,  view |-> FALSE, buf |-> FALSE, nd |-> 1],
+  tview     |-> [isT |-> TRUE,  isA |-> FALSE, dt |-> "f8",  const |-> FALSE, graph |-> TRUE,  grad |-> FALSE, view |-> TRUE,  buf |-> FALSE, nd |-> 1],
+  tT        |-> [isT |-> TRUE,  isA |-> FALSE, dt |-> "f8",  const |-> FALSE, graph |-> TRUE,  grad |-> FALSE, view |-> TRUE,  buf |-> FALSE, nd |-> 2],
+  tf4       |-> [isT |-> TRUE,  isA |-> FALSE, dt |-> "f4",  const |-> FALSE, graph |-> FALSE, grad |-> FALSE, view |-> FALSE, buf |-> FALSE, nd |-> 1],
+  \* objects that are neither tensors nor ndarrays but expose their memory (buffer protocol / __array_interface__):
+  \* np.asarray wraps that memory without copying, so "copy by default" must copy them too
+  bufarr    |-> [isT |-> FALSE, isA |-> FALSE, dt |-> "f8",  const |-> FALSE, graph |-> FALSE, grad |-> FALSE, view |-> FALSE, buf |-> TRUE,  nd |-> 1],
+  memview   |-> [isT |-> FALSE, isA |-> FALSE, dt |-> "f8",  const |-> FALSE, graph |-> FALSE, grad |-> FALSE, view |-> FALSE, buf |-> TRUE,  nd |-> 1],
+  iface     |-> [isT |-> FALSE, isA |-> FALSE, dt |-> "f8",  const |-> FALSE, graph |-> FALSE, grad |-> FALSE, view |-> FALSE, buf |-> TRUE,  nd |-> 1]
 ]
 KindNames == DOMAIN Kinds
 IsFloat(dt) == dt \in {"f8", "f4", "f2"}
@@ -73,7 +78,7 @@ Outcome(c) ==
        [raises |-> "ValueError", isinput |-> FALSE, shares |-> FALSE, dtype |-> rd, constant |-> FALSE,
         creatornone |-> TRUE, gradnone |-> TRUE, basenone |-> TRUE, ndim |-> 0]
   ELSE [raises |-> "none", isinput |-> FALSE,
-        shares |-> ~copy /\ (k.isT \/ k.isA) /\ rd = k.dt,
+        shares |-> ~copy /\ (k.isT \/ k.isA \/ k.buf) /\ rd = k.dt,
         dtype |-> rd,
         constant |-> IF c.constant = "none" THEN ~IsFloat(rd) ELSE c.constant = "true",
         creatornone |-> TRUE, gradnone |-> TRUE, basenone |-> TRUE,
@@ -89,7 +94,7 @@ ConvertOutcome(c) ==
   CASE c.entry = "asarray" ->
          LET rd == ResDtype(c.kind, c.dtype) IN
          \* (np.asarray hands an ndarray of the right dtype back unchanged; a tensor yields its own array)
-         [raises |-> "none", isinput |-> k.isA /\ rd = k.dt, shares |-> (k.isT \/ k.isA) /\ rd = k.dt, dtype |-> rd,
+         [raises |-> "none", isinput |-> k.isA /\ rd = k.dt, shares |-> (k.isT \/ k.isA \/ k.buf) /\ rd = k.dt, dtype |-> rd,
           constant |-> FALSE, creatornone |-> TRUE, gradnone |-> TRUE, basenone |-> TRUE, isarray |-> TRUE]
     [] c.entry = "copy" ->
          IF IsIntLike(k.dt) /\ c.constant = "false"
